@@ -256,16 +256,27 @@ def ord3_ord5c(ctx: Ctx):
                 continue
         is_ip = any("ip_address" in show(t) or (t[0] == "attr" and t[2] == "compressed") for t in walk(v))
         if is_ip:
+            # an IP literal is canonicalised by the ipaddress library; any *other* text spliced into the result (the zone
+            # id) comes straight from the argument and must have been validated too
+            lw = Lower(model, fi, r)
+            raw_parts = [p[1] for p in (v[1] if v[0] == "fstr" else ()) if p[0] == "fmt" and lw.zone(p[1])]
+            for part in raw_parts:
+                okz = any((not fv) and k[0] == "call" and k[1][0] == "attr" and k[1][1] == ("global", "_url", "NOT_REG_NAME") and k[2]
+                          and any(t == part for t in walk(k[2][0])) for k, fv in s.facts.items())
+                seen.setdefault((id(node), "zone"), [node, ("fstr", (("const", "zone id of "), ("fmt", v, None, None))), []])[2].append(okz)
             continue
         ok = any((not fv) and k[0] == "call" and k[1][0] == "attr" and k[1][1] == ("global", "_url", "NOT_REG_NAME") and k[2] and k[2][0] == v
                  for k, fv in s.facts.items())
         seen.setdefault(id(node), [node, v, []])[2].append(ok)
-    for node, v, oks in seen.values():
+    for key, (node, v, oks) in seen.items():
         ctx.instance(rule)
+        zone = isinstance(key, tuple)
         ctx.ob(rule, ENC, f"return {show(v)[:70]} (validate_host requested)", all(oks),
-               "a registered name is returned on the validate_host path without the reg-name pattern having been applied to "
-               "the *encoded* result: the IDNA fallback codec NFKC-normalises, so e.g. U+2100 becomes 'a/c' unchecked",
-               where(fi, node), sample="NOT_REG_NAME.search(result) is None")
+               ("the zone id of an IP literal is spliced into the validated host verbatim: with_host('127.0.0.1%@evil.com:1') "
+                "yields an authority whose host is evil.com" if zone else
+                "a registered name is returned on the validate_host path without the reg-name pattern having been applied to "
+                "the *encoded* result: the IDNA fallback codec NFKC-normalises, so e.g. U+2100 becomes 'a/c' unchecked"),
+               where(fi, node), sample="NOT_REG_NAME.search(<text>) is None")
 
 
 def ord5(ctx: Ctx):
